@@ -147,6 +147,8 @@ def gen_family(rng):
         leaf(small, small, list(shared))
         blocks.append({"id": len(blocks), "kind": "Repeat", "block": a, "constraints": list(shared) + [mt(rng.choice([5, 6, 8]))]})
     elif shape == "nest+leaf":
+        if rng.random() < 0.3:
+            shared.append(mt(rng.choice([3, 4, 5])))
         o = leaf(small, small, list(shared))
         inner_f = rng.choice(others)
         inner_cs = [new_c(rand_shared_constraint(rng, 0, inner_f))] if rng.random() < 0.5 else []
@@ -205,6 +207,32 @@ def corpus():
                    {"id": 2, "kind": "Nest", "outer": 0, "inner": 1, "constraints": []},
                    {"id": 3, "kind": "CrossBlock", "design": [0, 1], "crossing": [0, 1], "constraints": [0], "rcc": True}],
         "main": 3}))
+    # one MinimumTrials object on the outer block of a Nest and on a block built afterwards:
+    # Nest rescales (its copy of) the outer block's constraints by the inner length
+    # (seeded change C18-nest-copies-only-geometry-constraints)
+    m = {"id": 0, "kind": "MinimumTrials", "trials": 4}
+    out.append(("nest-outer-shared-minimumtrials", {
+        "factors": [f, g], "constraints": [m],
+        "blocks": [{"id": 0, "kind": "CrossBlock", "design": [0], "crossing": [0], "constraints": [0], "rcc": True},
+                   {"id": 1, "kind": "CrossBlock", "design": [1], "crossing": [1], "constraints": [], "rcc": True},
+                   {"id": 2, "kind": "Nest", "outer": 0, "inner": 1, "constraints": []},
+                   {"id": 3, "kind": "CrossBlock", "design": [0, 1], "crossing": [0], "constraints": [0], "rcc": True}],
+        "main": 3}))
+    out.append(("nest-inner-shared-minimumtrials", {
+        "factors": [f, g], "constraints": [m],
+        "blocks": [{"id": 0, "kind": "CrossBlock", "design": [0], "crossing": [0], "constraints": [], "rcc": True},
+                   {"id": 1, "kind": "CrossBlock", "design": [1], "crossing": [1], "constraints": [0], "rcc": True},
+                   {"id": 2, "kind": "Nest", "outer": 0, "inner": 1, "constraints": []},
+                   {"id": 3, "kind": "CrossBlock", "design": [1], "crossing": [1], "constraints": [0], "rcc": True}],
+        "main": 3}))
+    out.append(("repeat-and-merge-shared-minimumtrials", {
+        "factors": [f, g], "constraints": [m],
+        "blocks": [{"id": 0, "kind": "CrossBlock", "design": [0, 1], "crossing": [0], "constraints": [0], "rcc": True},
+                   {"id": 1, "kind": "CrossBlock", "design": [0, 1], "crossing": [1], "constraints": [], "rcc": True},
+                   {"id": 2, "kind": "Merge", "blocks": [0, 1], "constraints": [0], "mode": "repeat"},
+                   {"id": 3, "kind": "Repeat", "block": 0, "constraints": [0]},
+                   {"id": 4, "kind": "CrossBlock", "design": [0], "crossing": [0], "constraints": [0], "rcc": True}],
+        "main": 4}))
     return out
 
 
